@@ -110,6 +110,12 @@ func (d *devSim) fault(echoLine, normal string, promptAfter string) bool {
 		d.emit(echoLine + "WARNING: something noteworthy\n" + prompt)
 	case "infotext":
 		d.emit(echoLine + "INFO: something\n" + prompt)
+	case "savefail":
+		// a failed save as an ASA prints it: fragments of the good answer, no [OK]
+		d.emit(echoLine + "Building configuration...\nCryptochecksum: 1234abcd 5678ef01 2345abcd 6789ef01\n" +
+			"%Error writing disk0:/.private/startup-config (No space left on device)\nError executing command\n[FAILED]\n" + prompt)
+	case "savefail_ok":
+		d.emit(echoLine + "Building configuration...\n%Error: device did not answer [OK] to the write request\n[FAILED]\n" + prompt)
 	case "unexpected":
 		d.emit(echoLine + "some unexpected output\n" + prompt)
 	case "garbled":
